@@ -98,6 +98,13 @@ def impl_functions():
     fs['unprefixize_uri_if_possible'] = lambda strs, flag, opt: uri.unprefixize_uri_if_possible(strs[0], dict(zip(strs[1::2], strs[2::2])), flag)
     fs['unprefixize_uri_mandatory'] = lambda strs, flag, opt: uri.unprefixize_uri_mandatory(strs[0], dict(zip(strs[1::2], strs[2::2])), flag)
     fs['prefixize_uri_if_possible'] = lambda strs, flag, opt: uri.prefixize_uri_if_possible(strs[0], dict(zip(strs[1::2], strs[2::2])), flag)
+    fs['prefixize_shape_name_if_possible'] = lambda strs, flag, opt: shapes.prefixize_shape_name_if_possible(strs[0], dict(zip(strs[1::2], strs[2::2])))
+    fs['serializer_tune_token'] = lambda strs, flag, opt: bs.BaseStatementSerializer.tune_token(strs[0], dict(zip(strs[1::2], strs[2::2])))
+
+    def sote(strs, flag, opt):
+        ser = bs.BaseStatementSerializer(instantiation_property_str=strs[0], frequency_serializer=None, disable_comments=True)
+        return ser.str_of_target_element(strs[1], strs[2], dict(zip(strs[3::2], strs[4::2])))
+    fs['serializer_str_of_target_element'] = sote
     lp = importlib.import_module("shexer.io.shape_map.label.shape_map_label_parser")
     mk = lambda strs: lp.ShapeMapLabelParser(prefix_namespaces_dict=dict(zip(strs[1::2], strs[2::2])))
     fs['label_is_a_prefixed_uri'] = lambda strs, flag, opt: "1" if mk(strs)._is_a_prefixed_uri(strs[0]) else "0"
@@ -106,7 +113,7 @@ def impl_functions():
     return fs
 
 
-ARITY = {'label_is_a_prefixed_uri': 1, 'label_parse_prefixed_label': 1, 'parse_shape_map_label': 1, 'add_corners': 1, 'add_corners_if_needed': 1, 'add_corners_if_it_is_an_uri': 1, 'there_is_arroba_after_last_quotes': 1,
+ARITY = {'prefixize_shape_name_if_possible': 1, 'serializer_tune_token': 1, 'serializer_str_of_target_element': 3, 'label_is_a_prefixed_uri': 1, 'label_parse_prefixed_label': 1, 'parse_shape_map_label': 1, 'add_corners': 1, 'add_corners_if_needed': 1, 'add_corners_if_it_is_an_uri': 1, 'there_is_arroba_after_last_quotes': 1,
          'unprefixize_uri_if_possible': 1, 'unprefixize_uri_mandatory': 1, 'prefixize_uri_if_possible': 1, 'serializer_prefixize_uri_if_possible': 1, 'check_if_property_belongs_to_namespace_list': 1, 'determine_suitable_iri_pattern': 0, 'longest_common_prefix': 2, 'remove_corners': 1, 'decide_literal_type': 1, 'build_shapes_name_for_class_uri': 2, 'get_shape_label_for_class_uri': 1}
 
 
@@ -132,6 +139,19 @@ def gen_function(rng, names):
         strs = [rng.choice(['<', '']) + rng.choice(pres + ['zz', 'https']) + rng.choice([':', '://', '', ':ex:']) + rstr(rng, ['p', 'q', '/', '#', 'ex:', ':', '>'], 0, 3)]
         for k in keys:
             strs += [k, rng.choice(['http://example.org/', 'http://e.org/ns#', '', 'ex:'])]
+    if name in ('prefixize_shape_name_if_possible', 'serializer_tune_token', 'serializer_str_of_target_element'):
+        nss = ['http://example.org/', 'http://example.org/deep/', 'http://weso.es/shapes/', 'http://example.org/ns#', 'urn:x:', 'ab']
+        keys = rng.sample(nss, rng.randint(0, 4))
+        iri = rng.choice(nss) + rstr(rng, ['p', 'q', '/', '#', '1', 'deep', ':'], 0, 3)
+        tok = rng.choice(['%<' + iri + '>', '%<' + iri + '>', iri, iri, 'IRI', 'BNode', 'NONLITERAL', 'LITERAL', 'noColon', '<x', '%' + iri, '%<' + iri, ''])
+        if name == 'prefixize_shape_name_if_possible':
+            tok = rng.choice(['%<' + iri + '>', '%<' + iri + '>', '%' + iri, '%<' + iri, '<' + iri + '>', ''])
+        strs = [tok]
+        if name == 'serializer_str_of_target_element':
+            ip = rng.choice(['http://www.w3.org/1999/02/22-rdf-syntax-ns#type', 'http://example.org/inst'])
+            strs = [ip, tok, rng.choice([ip, ip, 'http://example.org/p', ''])]       # the serializer's instantiation property, then element and predicate
+        for k in keys:
+            strs += [k, rng.choice(['ex', 'e', '', 'x1'])]
     if name in ('label_is_a_prefixed_uri', 'label_parse_prefixed_label', 'parse_shape_map_label'):
         pres = ['ex', 'e', '', 'sx', 'a:b', '<ex']
         keys = rng.sample(pres, rng.randint(0, 4))
